@@ -112,6 +112,7 @@ type frame struct {
 	panic            any
 	phitemps         []value // temporaries for parallel phi assignment
 	visits           []int32 // per-block back-edge counts (unwinding bound)
+	visitTrace       []int32 // trace length+1 at the last counted back-edge per block
 	depthIdx         int
 }
 
@@ -593,7 +594,15 @@ func runFrame(fr *frame) {
 				fr.visits = make([]int32, len(fr.fn.Blocks))
 			}
 			bi := fr.block.Index
-			fr.visits[bi]++
+			// an iteration that recorded no decision (branch, pick, assume) is
+			// concretely determined: it is bounded by the step budget instead
+			if tl := int32(len(cx.trace)); fr.visitTrace == nil || fr.visitTrace[bi] != tl+1 {
+				if fr.visitTrace == nil {
+					fr.visitTrace = make([]int32, len(fr.fn.Blocks))
+				}
+				fr.visitTrace[bi] = tl + 1
+				fr.visits[bi]++
+			}
 			if int(fr.visits[bi]) > cx.cfg.Unwind {
 				cx.abort("unwind-exceeded", fmt.Sprintf("%s block %d", fr.fn, bi))
 			}
